@@ -145,6 +145,13 @@ impl C19 {
                         } else {
                             ctx.count("iterated-conformant");
                             ctx.count_n("sections", k as u64);
+                            // M6b: every other way of consuming the iterator sees the same sections
+                            crate::iterproto::check(
+                                ctx,
+                                "elf-sections",
+                                mk,
+                                &|s: ElfSection| (s.section_type_raw(), s.start_address(), s.size(), s.flags().bits(), s.addralign()),
+                                4096, false);
                         }
                     } else if c.n == 0 {
                         ctx.count("n=0:nothing-yielded");
